@@ -57,3 +57,44 @@ def compare(items, relevant_kind):
             mism.append({"origin": o, "req": q, "impl": i, "model": m})
     monf = [{"origin": o, "req": q, "impl": i} for (o, q, i) in mons if i != "ok"]
     return mism, monf
+
+
+def compare_with_oracle(items, oracle_bin="p_syntax", max_rounds=4):
+    """Like compare, for requests whose last field is a regex/glob validity table: the driver answers
+    `need r<hex>,g<hex>` for lookups it is missing; validity is then obtained from the `regex` /
+    `globset` crates (harness `oracle` sub-command) and the request is re-sent with the table."""
+    reqs = [[o, q, i] for (o, q, i) in items if not q.startswith("mon ")]
+    mons = [(o, q, i) for (o, q, i) in items if q.startswith("mon ")]
+    tables = [dict() for _ in reqs]
+    answers = vlib.run_driver([q for _, q, _ in reqs])
+    cache = {}
+    for _ in range(max_rounds):
+        pending = [k for k, a in enumerate(answers) if a.startswith("need ")]
+        if not pending: break
+        want = set()
+        for k in pending:
+            for e in answers[k][5:].split(","):
+                if e not in cache: want.add(e)
+        want = sorted(want)
+        if want:
+            rc, out, err = vlib.run_bin(oracle_bin, ["oracle"], input=("\n".join(want) + "\n").encode())
+            vals = out.split("\n")
+            for e, v in zip(want, vals):
+                cache[e] = v.strip()
+        newreqs = []
+        for k in pending:
+            for e in answers[k][5:].split(","):
+                tables[k][e] = cache[e]
+            tbl = ",".join(f"{e[0]}{tables[k][e]}{e[1:]}" for e in sorted(tables[k]))
+            base = reqs[k][1].rsplit(" ", 1)[0]
+            newreqs.append(base + " " + tbl)
+        newans = vlib.run_driver(newreqs)
+        for k, a, q in zip(pending, newans, newreqs):
+            answers[k] = a
+            reqs[k][1] = q
+    mism = []
+    for (o, q, i), m in zip(reqs, answers):
+        if i != m:
+            mism.append({"origin": o, "req": q, "impl": i, "model": m})
+    monf = [{"origin": o, "req": q, "impl": i} for (o, q, i) in mons if i != "ok"]
+    return mism, monf
